@@ -1106,3 +1106,80 @@ def show_atom(a):
     if k in ("relnotin", "relin"):
         return "%s(%s, %s)" % (k, show(a[1], 1), a[2])
     return str(a)[:100]
+
+
+def map_term(t, f):
+    """rebuild a term bottom-up, applying f to every node (f returns a replacement or None to keep)"""
+    if not isinstance(t, tuple) or not t:
+        return t
+    k = t[0]
+    if k in ("ref", "deref", "discr"):
+        n = (k, map_term(t[1], f))
+    elif k in ("field", "variant", "cast"):
+        n = (k, map_term(t[1], f), t[2])
+    elif k == "index":
+        n = (k, map_term(t[1], f), map_term(t[2], f))
+    elif k == "binop":
+        n = (k, t[1], map_term(t[2], f), map_term(t[3], f))
+    elif k == "unop":
+        n = (k, t[1], map_term(t[2], f))
+    elif k == "call":
+        n = (k, t[1], tuple(map_term(a, f) for a in t[2])) + tuple(t[3:])
+    elif k == "agg":
+        n = (k, t[1], tuple(map_term(a, f) for a in t[2]))
+    elif k == "phi":
+        n = (k, tuple(map_term(a, f) for a in t[1]))
+    else:
+        n = t
+    r = f(n)
+    return n if r is None else r
+
+
+def closure_parts(t):
+    """("agg", "closure:<def>", caps) -> (def, caps) else None"""
+    t = strip(t)
+    if t[0] == "agg" and isinstance(t[1], str) and t[1].startswith("closure:"):
+        return t[1][8:], t[2]
+    return None
+
+
+def closure_result(facts, clo, getters=None):
+    """normalised return-value origin of a closure with its captures replaced by the captured terms of the creating
+    function; the closure's own arguments stay ("param", n>=2)"""
+    cp = closure_parts(clo)
+    if cp is None:
+        return None
+    cdef, caps = cp
+    cb = facts.bodies.get(cdef)
+    if cb is None:
+        return None
+    caps = [norm(c, getters) for c in caps]
+    r = norm(cb.local_origin(0), getters)
+
+    def f(n):
+        if n[0] == "field" and n[1][0] == "param" and n[1][1] == 1 and str(n[2]).isdigit() and int(n[2]) < len(caps):
+            return caps[int(n[2])]
+        return None
+    return map_term(r, f)
+
+
+def closure_calls(facts, clo, getters=None):
+    """[(callee_def, generic_args, [arg terms with captures substituted])] for the calls made directly in a closure body"""
+    cp = closure_parts(clo)
+    if cp is None:
+        return []
+    cdef, caps = cp
+    cb = facts.bodies.get(cdef)
+    if cb is None:
+        return []
+    caps = [norm(c, getters) for c in caps]
+
+    def f(n):
+        if n[0] == "field" and n[1][0] == "param" and n[1][1] == 1 and str(n[2]).isdigit() and int(n[2]) < len(caps):
+            return caps[int(n[2])]
+        return None
+    out = []
+    for bi, t in cb.calls():
+        c = t["callee"]
+        out.append((c.get("def", ""), c.get("args", []), [map_term(norm(cb.origin(a), getters), f) for a in t["args"]]))
+    return out
